@@ -7,6 +7,19 @@ from pathlib import Path
 VERIF = Path(__file__).resolve().parents[1]
 
 CHECKS = {
+    "C16": dict(
+        category="fault_enumeration", design_ref="DESIGN.md §2 C16",
+        technique="strace syscall trace of the table's whole life + offline power-loss checker at every pointer flip + durable-image replay opened with the real library",
+        text="A child process performs create, appends, multi-append, deletes, delete_snapshot, expire, collection under "
+             "strace -f -y (pyarrow's own writes included). The offline checker replays the trace in a power-loss model: at "
+             "every rename onto the pointer each file reachable from the new pointer value must have been fsynced after its "
+             "last write, its directory entry persisted by a directory fsync, and its ancestors persisted. The durable "
+             "image after every flip / root fsync (quick) or every fsync, rename, unlink (thorough) is materialised from "
+             "the traced payloads and opened by the independent reader and the library: a surviving pointer must lead to "
+             "fully readable snapshots.",
+        note="Conservative model over a real trace on tmpfs; real disks / NFS semantics are out of reach. The commit's own "
+             "durability after acknowledgement is measured, not judged.",
+    ),
     "C03": dict(
         category="fault_enumeration", design_ref="DESIGN.md §2 C03",
         technique="crash-point enumeration: child process killed (os._exit) before every measured OS-level call of each operation, then reopen + state oracle by an independent reader",
